@@ -55,6 +55,9 @@ type mapEntry struct {
 type Map struct {
 	KeyT    types.Type
 	entries []*mapEntry
+	// index of live entries with constant string keys (valid while no entry has a symbolic key)
+	strIdx   map[string]*mapEntry
+	symbolic bool
 }
 
 func (m *Map) Len() int {
